@@ -138,8 +138,9 @@ Definition contains (s : nset) (q : N) : option bool :=
   end.
 
 (* Range.append / Set.Nums.  [nums_range a b] enumerates a..b (a <= b). *)
+(* (offsets are counted from a so that evaluation never builds a unary number of size a) *)
 Definition nums_range (a b : N) : list N :=
-  map N.of_nat (seq (N.to_nat a) (N.to_nat (b + 1 - a))).
+  map (fun i => a + N.of_nat i) (seq 0 (N.to_nat (b + 1 - a))).
 
 Inductive nums_result := NumsOk (l : list N) | NumsNotStatic.
 
